@@ -34,7 +34,7 @@ package client
 
 // What every step of the client relies on (established by NewClient + Dial, kept by every step).
 //@ pred cLite(c *Client) = c != nil && c.cfg != nil && c.conn != nil && c.transactions != nil && storeInv(c.transactions) &&
-//@      c.registeredTopics != nil && c.messageHandlers != nil && c.state != nil && c.cancel != nil && c.msgID != nil && c.log != nil && cfgFits(c.cfg)
+//@      c.registeredTopics != nil && c.messageHandlers != nil && c.state != nil && c.cancel != nil && c.msgID != nil && c.log != nil && c.groupCtx != nil && cfgFits(c.cfg)
 // A-CLIENTCFG (assumed about the application's configuration, not checked by the library): identifiers and will data fit into one datagram.
 //@ pred cfgFits(cfg *ClientConfig) = len(cfg.ClientID) >= 1 && len(cfg.ClientID) <= 8184 && len(cfg.WillTopic) <= 8187 && len(cfg.WillPayload) <= 8188 &&
 //@      len(cfg.User) + len(cfg.Password) <= 8000 && cfg.RetryCount < 0xFFFFFFFF
